@@ -191,4 +191,5 @@ pub fn run(out: &mut Out, tier: &str, seed: u64) {
         if !s.is_err() { out.hit("kx.server.accepts-zero-shared-secret", format!("peer key {} ({})", name, s.class()), json!({"op":"kx.server","spk":hx(&pk),"ssk":hx(&sk),"cpk":hx(&p),"point":name})); }
         if name == "0" || name == "order8-a" { out.case("kx.client", &[b(&pk), b(&sk), b(&p)], &c.map(|(a, bb)| vec![b(&a), b(&bb)]), true); }
     }
+    crate::objapi::kx(out, &mut rng);
 }
